@@ -51,6 +51,24 @@ type c10World struct {
 	tracer *hx.Tracer
 	gate   *c10Gate
 	t0     time.Time
+	alt    bool // odd clients use the second handle g (see c10SecondHandle)
+}
+
+// c10SecondHandle binds g to whatever (with-meta f {…}) returns when that is a future, else to f itself: every way the
+// language offers to obtain a future from a future denotes the same future, and the rules R1-R8 are judged over the
+// operations on all handles together (seeded C10-m14: a copy whose status flags drift apart from the original's).
+func (w *c10World) c10SecondHandle(c *fw.Ctx) {
+	o := hx.EvalText(context.Background(), "(def g (let (h (try (with-meta f {:handle 2}) (catch e f))) (if (future? h) h f)))", w.env)
+	if o.Err != nil || o.Panicked {
+		return
+	}
+	w.alt = true
+	f, _ := w.env.Get(types.Symbol{Val: "f"})
+	if g, _ := w.env.Get(types.Symbol{Val: "g"}); g != f {
+		c.Count("futures_with_a_distinct_second_handle", 1)
+	} else {
+		c.Count("futures_whose_second_handle_is_the_first", 1)
+	}
 }
 
 func c10NewWorld() *c10World {
@@ -95,6 +113,9 @@ var c10Bodies = map[string]string{
 
 func (w *c10World) do(client int, kind string, deadline time.Duration) c10Op {
 	src := map[string]string{"deref": "@f", "done?": "(future-done? f)", "cancelled?": "(future-cancelled? f)", "cancel": "(future-cancel f)"}[kind]
+	if w.alt && client%2 == 1 {
+		src = map[string]string{"deref": "@g", "done?": "(future-done? g)", "cancelled?": "(future-cancelled? g)", "cancel": "(future-cancel g)"}[kind]
+	}
 	ast, err := lisp.READ(src, nil, w.env)
 	if err != nil {
 		panic(err)
@@ -292,6 +313,7 @@ func c10Random(c *fw.Ctx, r *rand.Rand, id string) {
 		if o := hx.EvalText(creatorCtx, "(def f (future "+body+"))", w.env); o.Err != nil || o.Panicked {
 			panic(fmt.Sprint(o.Err, o.PanicMsg))
 		}
+		w.c10SecondHandle(c)
 		if endCreator != nil {
 			hx.EvalText(context.Background(), "(try @f (catch e :thrown))", w.env)
 			endCreator()
